@@ -107,14 +107,19 @@ func Solve(name, script string, timeout time.Duration, all bool) SolveResult {
 				ch <- one{be.name, "cancelled", "", 0}
 				return
 			}
-			args := be.args(file, timeout)
+			// The budget is CPU time (ulimit -t), so that a loaded machine does not turn a proof
+			// into a timeout; the solvers' own wall-clock limits and ours are set fifteen times
+			// higher and only stop a solver that is not getting any CPU at all.
+			wall := 15 * timeout
+			args := be.args(file, wall)
 			isAbs := strings.HasSuffix(be.name, absSuffix)
 			if isAbs {
-				args = be.args(absFile, timeout)
+				args = be.args(absFile, wall)
 			}
-			cctx, ccancel := context.WithTimeout(ctx, timeout+2*time.Second)
+			cctx, ccancel := context.WithTimeout(ctx, wall+2*time.Second)
 			defer ccancel()
-			cmd := exec.CommandContext(cctx, args[0], args[1:]...)
+			shargs := []string{"-c", fmt.Sprintf("ulimit -t %d; exec \"$@\"", int(timeout.Seconds())+1), "sh"}
+			cmd := exec.CommandContext(cctx, "sh", append(shargs, args...)...)
 			var buf bytes.Buffer
 			cmd.Stdout = &buf
 			cmd.Stderr = &buf
@@ -128,7 +133,8 @@ func Solve(name, script string, timeout time.Duration, all bool) SolveResult {
 				st = "unknown" // a model of the abstraction is not a model of the query
 			case st == "unsat" || st == "sat":
 			case st == "unknown":
-			case strings.Contains(st, "timeout") || cctx.Err() != nil:
+			case strings.Contains(st, "timeout") || cctx.Err() != nil || (st == "" && cmd.ProcessState != nil && !cmd.ProcessState.Success()):
+				// (killed by the CPU limit: no output)
 				if ctx.Err() != nil {
 					st = "cancelled"
 				} else {
